@@ -622,7 +622,14 @@ pub fn gen_user_guide(r: &mut Rng, sig: &Signature, with_assumptions: bool) -> S
     }
     if with_assumptions {
         for _ in 0..r.upto(3) {
-            match r.below(3) {
+            match r.below(4) {
+                3 => {
+                    // a quantifier directly over a comparison chain
+                    match sig.placeholders.iter().find(|(_, s)| s == "integer") {
+                        Some((n, _)) if r.chance(1, 2) => lines.push(format!("assumption: exists N$i ({} <= N$i <= {n}).", r.range(-1, 1))),
+                        _ => lines.push(format!("assumption: exists N$i ({} <= N$i < {}).", r.range(-1, 1), r.range(2, 4))),
+                    }
+                }
                 0 if sig.placeholders.iter().any(|(_, s)| s == "integer") => {
                     let (n, _) = sig.placeholders.iter().find(|(_, s)| s == "integer").unwrap();
                     lines.push(format!("assumption: {} {} {}.", n, [">", ">=", "!="][r.upto(3)], r.range(0, 2)));
@@ -787,7 +794,14 @@ pub fn gen_strong_with(r: &mut Rng, so: StrongOpts) -> (String, String) {
         o.symbols.extend(["general".to_string(), "symbol".to_string(), "f__integer__".to_string()]);
         o.preds.push(("p__less__".into(), 2));
     }
-    let left = gen_program(r, &o);
+    let mut left = gen_program(r, &o);
+    if r.chance(1, 8) {
+        // a rule whose body is the negation (or double negation) of its head
+        let (p, n) = o.preds[r.upto(o.preds.len())].clone();
+        let atom = if n == 0 { p.clone() } else { format!("{p}({})", vec!["X"; n].join(",")) };
+        let guard = if n == 0 { String::new() } else { format!(", {} = 1..2", "X") };
+        left.push_str(&format!("\n{atom} :- {} {atom}{}.", ["not", "not not"][r.upto(2)], if r.chance(1, 2) { guard } else { String::new() }));
+    }
     let right = match r.below(4) {
         0 => rewrite_program(r, &left),
         1 | 2 => mutate_program(r, &left),
